@@ -27,6 +27,7 @@ type connection struct {
 	joinFunc             func(message *Message, activeChan chan<- *ActiveMessage) (string, error)
 	leaveFunc            func(key string)
 	key                  string
+	joined               bool // 加入成功后才有key 没加入的连接结束时不能去删除key(自定义key可能是空字符串)
 	filter               bool
 	terminalEvent        TerminalEventer
 }
@@ -119,6 +120,7 @@ func (c *connection) reader() {
 						if err == nil {
 							join = true
 							c.key = key
+							c.joined = true
 						}
 						c.terminalEvent.OnJoinEvent(msg, key, err)
 						if errors.Is(err, _errKeyExist) {
@@ -182,7 +184,9 @@ func (c *connection) write() {
 func (c *connection) stop() {
 	c.stopOnce.Do(func() {
 		verifAt(c, "S.begin")
-		c.leaveFunc(c.key)
+		if c.joined {
+			c.leaveFunc(c.key)
+		}
 		verifAt(c, "S.left")
 		c.terminalEvent.OnLeaveEvent(c.key)
 		close(c.stopChan)
